@@ -221,8 +221,85 @@ func tryReplay(s *Session, prop string, g *OblGroup, fo *Obligation) (bool, map[
 			"status": map[bool]string{true: "the real code contradicts the clause on this input", false: "the real code agrees with the clause on the model's input (abstraction too coarse, or the driver does not cover this clause)"}[confirmed],
 			"raw": trunc(string(out), 1500)}
 	}
-	if fo.Result != "sat" {
-		return false, map[string]interface{}{"status": "the solver gave no model for this obligation (" + fo.Result + ") and no model-free driver covers it"}
+	// No driver built from the solver's model applies: try the stored scenario tests of this property (histories written by
+	// sub-agents for seeded changes; each asserts the property and passes on the unchanged tree). A scenario that fails on the
+	// tree under check is a concrete failing history on the real code - found by replaying stored scenarios, not derived
+	// from the verifier's model, and the replay file says so.
+	if name, out, ok := scenarioReplay(prop); ok {
+		return true, map[string]interface{}{"status": "a stored scenario test of this property fails on the real code (not derived from the solver's model)",
+			"scenario": name, "driver_output": out}
 	}
-	return false, map[string]interface{}{"status": "no replay driver for this function / obligation kind"}
+	if fo.Result != "sat" {
+		return false, map[string]interface{}{"status": "the solver gave no model for this obligation (" + fo.Result + "), no model-free driver covers it and every stored scenario of the property passes"}
+	}
+	return false, map[string]interface{}{"status": "no replay driver for this function / obligation kind; every stored scenario of the property passes"}
+}
+
+type scenario struct {
+	Name    string `json:"name"`
+	Pkg     string `json:"pkg"`
+	File    string `json:"file"`
+	Run     string `json:"run"`
+	History string `json:"history"`
+}
+
+var scenarioCache = map[string]*struct {
+	name string
+	out  []string
+	ok   bool
+}{}
+
+// scenarioReplay runs the stored scenarios of a property once per check run (in parallel) and reports the first that fails.
+func scenarioReplay(prop string) (string, []string, bool) {
+	if c, ok := scenarioCache[prop]; ok {
+		return c.name, c.out, c.ok
+	}
+	res := &struct {
+		name string
+		out  []string
+		ok   bool
+	}{}
+	scenarioCache[prop] = res
+	if os.Getenv("VERIF_NO_SCENARIOS") != "" {
+		return "", nil, false
+	}
+	idx := map[string][]scenario{}
+	data, err := os.ReadFile(filepath.Join(verifDir, "replay", "scenarios", "index.json"))
+	if err != nil || json.Unmarshal(data, &idx) != nil {
+		return "", nil, false
+	}
+	type r struct {
+		sc     scenario
+		failed bool
+		lines  []string
+	}
+	scs := idx[prop]
+	ch := make(chan r, len(scs))
+	for _, sc := range scs {
+		go func(sc scenario) {
+			cmd := exec.Command("sh", filepath.Join(verifDir, "replay", "run_overlay.sh"), sc.Pkg, filepath.Join(verifDir, sc.File), sc.Run, repoDir)
+			cmd.Env = append(os.Environ(), "GOFLAGS=", "GOPROXY=off", "GOSUMDB=off", "GOTOOLCHAIN=local")
+			out, err := cmd.CombinedOutput()
+			o := string(out)
+			failed := err != nil && strings.Contains(o, "--- FAIL") && !strings.Contains(o, "[build failed]")
+			var lines []string
+			for _, l := range strings.Split(o, "\n") {
+				if strings.Contains(l, "Error:") || strings.Contains(l, "--- FAIL") || strings.Contains(l, "Messages:") || strings.Contains(l, "_test.go:") {
+					lines = append(lines, strings.TrimSpace(l))
+				}
+			}
+			if len(lines) > 12 {
+				lines = lines[:12]
+			}
+			ch <- r{sc, failed, lines}
+		}(sc)
+	}
+	for range scs {
+		x := <-ch
+		if x.failed && !res.ok {
+			res.ok, res.name = true, x.sc.Name+" ("+x.sc.Run+"): "+x.sc.History
+			res.out = x.lines
+		}
+	}
+	return res.name, res.out, res.ok
 }
